@@ -482,6 +482,34 @@ func genC15() {
 				})
 			}
 			if prefix == "" {
+				// goextract's inliner (inline.go) has already expanded a NEW single-use helper in place: a block
+				// `{ <helper body, return e -> inlinedResult = e>; if inlinedResult { … maxStreams = N } }`
+				assignsMax := func(n ast.Node) bool {
+					r := false
+					ast.Inspect(n, func(m ast.Node) bool {
+						if as, ok := m.(*ast.AssignStmt); ok && len(as.Lhs) == 1 {
+							if se, ok := as.Lhs[0].(*ast.SelectorExpr); ok && se.Sel.Name == "maxStreams" {
+								r = true
+							}
+						}
+						return true
+					})
+					return r
+				}
+				ast.Inspect(fd, func(m ast.Node) bool {
+					b, ok := m.(*ast.BlockStmt)
+					if !ok || prefix != "" {
+						return true
+					}
+					for _, st := range b.List {
+						if is, ok := st.(*ast.IfStmt); ok && strings.Contains(exprText(is.Cond), "inlinedResult") && assignsMax(is.Body) {
+							prefix = prefixIn(b)
+						}
+					}
+					return true
+				})
+			}
+			if prefix == "" {
 				fail("%s: expandApkWriter.Next: the name prefix of a signature entry was not found (strings.HasPrefix literal in Next or in a helper it calls)", rel)
 			}
 		}
